@@ -5,7 +5,25 @@ register("T00",  # infrastructure self-test, not a property of properties.jsonl
 
 # C01, C02, C03, C08, C10: see c01.py ... c10.py
 
-register("C20", lean_modules=["GtModel.Props.C20"], gen=lambda: __import__("harness.gentables", fromlist=["x"]).gen_cli_tables(),
+def _c20_extra(prop, tier):
+    """every exception class the recorded fuzz of the parser entry points saw (harness/gentables.py, Gen step of this run)
+    goes through the real command line with the shortest file that raised it, and through the faults monitor"""
+    from .. import common as C, gentables as G
+    from ..streams import faults as F
+    rec = G.LAST_RECORDED
+    cases = F.witness_cases(rec)
+    obs = C.run_impl("faults", cases) if cases else []
+    hits = []
+    for c, o in zip(cases, obs):
+        for h in F.monitor(c, o):
+            hits.append({"stream": "faults", "case": c, "obs": o, "key": h["key"], "what": h["what"]})
+    info = {"recorded_raised": {k: {"classes": v.get("classes"), "files": v.get("tried"), "rejected_by_reference": v.get("rejected")} for k, v in sorted(rec.items())},
+            "witness_cases": len(cases)}
+    return {"info": info, "hits": hits, "evaluations": len(cases),
+            "samples": [{"stream": "faults", "case": c, "obs": o} for c, o in list(zip(cases, obs))[:2]]}
+
+
+register("C20", lean_modules=["GtModel.Props.C20"], extra=_c20_extra, gen=lambda: __import__("harness.gentables", fromlist=["x"]).gen_cli_tables(),
          streams=["faults"],
          theorems=["GtModel.C20.handlers_cover", "GtModel.C20.invalid_yields_message", "GtModel.C20.error_path_first", "GtModel.C20.error_path_second"],
          partial="Only handlers_cover carries content: a decide over regenerated tables (except clauses of /repo, exception MROs, and the hand list of "
